@@ -474,6 +474,16 @@ func (a *apiWorld) genValid(t *rapid.T) httpReq {
 				els = append(els, map[string]any{"action": "REVERT_TRANSACTION", "data": map[string]any{"id": json.Number(a.pickTx(t)), "force": true}})
 			}
 		}
+		if rapid.IntRange(0, 5).Draw(t, "actionSpelling") == 0 {
+			// an action named in another case is no action of the API: the whole request is refused
+			el := els[rapid.IntRange(0, len(els)-1).Draw(t, "respelled")].(map[string]any)
+			name := el["action"].(string)
+			if rapid.Bool().Draw(t, "lower") {
+				el["action"] = strings.ToLower(name)
+			} else {
+				el["action"] = name[:1] + strings.ToLower(name[1:])
+			}
+		}
 		r.Body = mustJSON(els)
 		if rapid.Bool().Draw(t, "atomic") {
 			r.Query.Set("atomic", "true")
@@ -977,6 +987,17 @@ func (r httpReq) mustReject() string {
 	if r.requiresJSONBody() && jsonCT && len(r.Body) > 0 && !isJSON {
 		return "the body is not a JSON document"
 	}
+	if isJSON && jsonCT && r.Route == "v2 POST /_bulk" {
+		if els, ok := doc.([]any); ok {
+			for i, e := range els {
+				if em, ok := e.(map[string]any); ok {
+					if name, ok := em["action"].(string); ok && !bulkActions[name] {
+						return fmt.Sprintf("elements[%d].action = %q is not an action of the API", i, name)
+					}
+				}
+			}
+		}
+	}
 	if isJSON && jsonCT && (r.Route == "v2 POST /transactions" || r.Route == "v1 POST /transactions") {
 		if m, ok := doc.(map[string]any); ok {
 			if ps, ok := m["postings"].([]any); ok {
@@ -1128,6 +1149,8 @@ func (a *apiWorld) judge(r httpReq) apiVerdict {
 }
 
 const ruleC38 = "requests to the real v1+v2 router (recover middleware included) over a seeded ledger (4 transactions incl. a revert and a back-dated one, metadata, a schema with transaction and query templates): a valid request is drawn for one of 45 routes (both API versions; writes, reads, lists with filters/PIT/expand, bulk, schemas, query templates, import/export, ledger management), then 0-3 grammar-aware mutations are applied (type confusion / deletion / extra fields on any JSON node, targeted invalid posting address/asset/amount, truncated or foreign bodies, hostile query values, forged cursors, hostile path segments, headers, content types). Oracle: never a 5xx or recovered panic; a body announced as JSON parses and error bodies carry an errorCode; a request the mutation made invalid beyond doubt is answered 4xx; after any >= 400 answer every table of the bucket is unchanged (non-atomic bulk and import excepted); non-trivial = mutated request on a write route or with a JSON-node mutation; distinct = by request text"
+
+var bulkActions = map[string]bool{"CREATE_TRANSACTION": true, "ADD_METADATA": true, "REVERT_TRANSACTION": true, "DELETE_METADATA": true}
 
 const FindingAPIBalanceNoAsset = "C38-accounts-balance-without-asset"
 
